@@ -4,8 +4,9 @@ import json, os, shutil, sys
 src, sid = sys.argv[1], sys.argv[2]
 dst = os.path.join('/verif/seeded', sid)
 os.makedirs(dst, exist_ok=True)
-for f in ('patch.diff', 'demo.py'):
-    shutil.copy(os.path.join(src, f), os.path.join(dst, f))
+shutil.copy(os.path.join(src, 'demo.py'), os.path.join(dst, 'demo.py'))
+reb = os.path.join(src, 'patch.rebased.diff')
+shutil.copy(reb if os.path.exists(reb) else os.path.join(src, 'patch.diff'), os.path.join(dst, 'patch.diff'))
 meta = json.load(open(os.path.join(src, 'meta.json')))
 tr = json.load(open(os.path.join(src, 'try_result.json')))
 meta['origin'] = 'independent sub-agent given only the property text and a scratch worktree'
